@@ -363,6 +363,35 @@ func init() {
 		} {
 			clis = append(clis, append(append([]string{}, a...), append(base, "scn")...))
 		}
+		// every trigger with one flag at a time set to an unusable or borderline value
+		valid := map[string][]string{
+			"constant": {"run", "constant", "-r", "5/10ms"},
+			"staged":   {"run", "staged", "-s", "0s:3,100ms:3", "-f", "10ms"},
+			"ramp":     {"run", "ramp", "-s", "1/10ms", "-e", "5/10ms", "-r", "100ms"},
+			"gaussian": {"run", "gaussian", "--volume", "500", "--repeat", "1s", "--iteration-frequency", "10ms", "--peak", "500ms", "--standard-deviation", "100ms"},
+			"users":    {"run", "users"},
+		}
+		perTrigger := map[string][][]string{
+			"constant": {{"--jitter", "100"}, {"--jitter", "abc"}, {"--distribution", "regular"}, {"--distribution", "random"}, {"--distribution", ""}},
+			"staged":   {{"--jitter", "-50"}, {"--jitter", "100"}, {"--distribution", "bogus"}, {"--distribution", "random"}},
+			"ramp":     {{"--jitter", "-50"}, {"--jitter", "250"}, {"--distribution", "bogus"}, {"-r", "-100ms"}},
+			"gaussian": {{"--weights", "1,a"}, {"--weights", "0,0"}, {"--weights", "-1,1"}, {"--peak", "-1s"}, {"--peak", "5s"},
+				{"--standard-deviation", "-1s"}, {"--volume", "-5"}, {"--volume", "0"}, {"--jitter", "-50"}, {"--distribution", "bogus"},
+				{"--iteration-frequency", "-10ms"}, {"--iteration-frequency", "2s"}, {"--repeat", "-1s"}},
+			"users": {},
+		}
+		runLevel := [][]string{{"--max-duration", "0s"}, {"--max-duration", "-1s"}, {"--max-duration", "5ms"}, {"--max-duration", "10ms"},
+			{"--max-failures-rate", "-5"}, {"--max-failures-rate", "150"}, {"--max-iterations", "0"}, {"--concurrency", "1"},
+			{"--concurrency", "-1"}, {"--concurrency", "0"}}
+		for _, trg := range []string{"constant", "staged", "ramp", "gaussian", "users"} {
+			for _, extra := range append(append([][]string{}, perTrigger[trg]...), runLevel...) {
+				a := append(append([]string{}, valid[trg]...), extra...)
+				if extra[0] != "--max-duration" {
+					a = append(a, "--max-duration", "120ms")
+				}
+				clis = append(clis, append(a, "-v", "scn"))
+			}
+		}
 		yamls := append(c14yamls(), c14matrix()...)
 		type job struct {
 			front string
